@@ -38,6 +38,14 @@ def make_obs(ctx):
     obs.append(Ob('dtdiff-seconds:any-pair', 'C11_time.c', 'h_dtdiff', dict(KMAX=911280), units=TUNITS, group='dtdiff-seconds',
                   timeout=600, remove_bodies=core.prune_cals(['daisy']),
                   bounds={'first': 'every second of every day 1601..4095 (day-number held)', 'second': 'any other second of the range'}))
+    # what ddiff prints for year/month formats: the split of the ymd duration record into the requested
+    # units (harness of C06, unit src/ddiff.c), which is what dadd is then given back
+    from .C06 import UNITS as DUNITS
+    for fl in range(0, 8):
+        tag = ''.join('Yqm'[i] for i in range(3) if fl >> i & 1) or '-'
+        obs.append(Ob('ddiff-split-ymd:%s' % tag, 'C06_ddiff.c', 'h_precalc_ymd', {'FLAGS': fl}, units=DUNITS, group='ddiff-split-ymd',
+                      bounds={'duration': 'years <= 2494, months <= 11, days <= 30, time < 1 day, either sign',
+                              'units requested': tag + ' d H M S'}))
     return obs
 
 
